@@ -325,6 +325,10 @@ static void scaledVariants(const Sys& A, int hist, bool all)
         Ds.push_back(b);
         Ds.push_back(c);
         Ds.push_back(e);
+        // uniformly huge magnitudes: every entry scaled by 1e+156 (squares of entries leave the double range, the quotients the
+        // factorisation needs do not).  Uniformly tiny scalings are outside the solver's domain: it treats pivots below its absolute
+        // equals() tolerance as zero (assertion), the same bound as F10 for the sparse LU.
+        Ds.push_back(std::vector<double>(n, 1e78));
     }
     for (size_t k = 0; k < Ds.size(); k++) {
         if (!mine())
